@@ -138,9 +138,30 @@ def get_app(map_key, memfile, maxbody, tag=''):
     app.verif_ops, app.verif_outs, app.verif_info = [], [], {}
 
     def handler():
-        rq = app.request
+        rq = orig = app.request
         outs, info = app.verif_outs, app.verif_info
         for op in app.verif_ops:
+            # statements that are not body accesses: replace the stream / assign CONTENT_LENGTH through the
+            # request's item assignment, continue on a copy of the request, go back to the original
+            if op[0] == 'R':
+                d, sc = op[1:].split('/')
+                new = RecStream(core.unhb(d), [] if sc == '-' else [int(x) for x in sc.split('.')])
+                info['streams'].append(new)
+                rq['wsgi.input'] = new
+                outs.append('r')
+                continue
+            if op[0] == 'L':
+                rq['CONTENT_LENGTH'] = core.unhs(op[1:])
+                outs.append('l')
+                continue
+            if op == 'K':
+                rq = orig.copy()
+                outs.append('k')
+                continue
+            if op == 'O':
+                rq = orig
+                outs.append('o')
+                continue
             if op[0] == '?':          # the handler catches whatever the access raises and carries on
                 try:
                     run_op(rq, op[1:], outs, info)
@@ -211,7 +232,7 @@ def run_wsgi(map_key, memfile, maxbody, cl_hdr, te_hdr, data, sched, ops, ctype=
         env['HTTP_TRANSFER_ENCODING'] = te_hdr
     if ctype is not None:
         env['CONTENT_TYPE'] = ctype
-    app.verif_ops, app.verif_outs, app.verif_info = list(ops), [], {}
+    app.verif_ops, app.verif_outs, app.verif_info = list(ops), [], {'streams': [st]}
     started = []
 
     def start_response(status, headers, exc_info=None):
@@ -241,7 +262,12 @@ def run_wsgi(map_key, memfile, maxbody, cl_hdr, te_hdr, data, sched, ops, ctype=
             b.close()
         except Exception:
             pass
-    res.update(req=sum(st.requested), maxoff=st.maxoff, calls=st.calls, stderr=errs.getvalue()[-400:])
+    sts = app.verif_info.get('streams', [st])
+    if len(sts) == 1:
+        res.update(req=sum(st.requested), maxoff=st.maxoff)
+    else:       # one number per stream created, in creation order
+        res.update(req=','.join(str(sum(x.requested)) for x in sts), maxoff=','.join(str(x.maxoff) for x in sts))
+    res.update(calls=st.calls, streams=sts, stderr=errs.getvalue()[-400:])
     return res
 
 
@@ -540,3 +566,13 @@ def gen_spec(rng, ncalls=40):
 
 def solo_calls(a):
     return len(run_read(a['raw'], a['sched'], a['buf'], a['cl'], a['chunked'], None)['calls'])
+
+
+def rop(data, sched=()):
+    """the handler statement `request['wsgi.input'] = RecStream(data, sched)`"""
+    return f'R{hb(data)}/{".".join(str(x) for x in sched) or "-"}'
+
+
+def lop(text):
+    """the handler statement `request['CONTENT_LENGTH'] = text`"""
+    return 'L' + hs(text)
